@@ -94,6 +94,15 @@ class Repo:
                 self.n_files += 1
         for m in self.modules.values():
             self._index_module(m)
+        for q, fi in self.funcs.items():
+            if fi.cls is None and not fi.node.decorator_list:
+                a = fi.node.args
+                T.SIGNATURES[q] = [x.arg for x in list(a.posonlyargs) + list(a.args)]
+        for cq in self.classes:
+            fi = self.funcs.get(cq + '.__init__')
+            if fi is not None and not fi.node.decorator_list:
+                a = fi.node.args
+                T.SIGNATURES[cq] = [x.arg for x in list(a.posonlyargs) + list(a.args)][1:]
         for name in self.modules:
             T.MODULE_NAMES.add(name)
         T.MODULE_NAMES.update({'np', 'pd', 'h5py', 'os', 'os.path', 'json', 'math', 'mp', 'sys',
